@@ -79,7 +79,7 @@ func (s *Server) Dial(owner string) (net.Conn, error) {
 	s.nextConn++
 	id := s.nextConn
 	c, srv := BufPipe()
-	se := &session{srv: s, id: id, owner: owner, conn: srv, be: pgproto3.NewBackend(srv, srv),
+	se := &session{srv: s, id: id, owner: owner, conn: srv, tm: pgtype.NewMap(), be: pgproto3.NewBackend(srv, srv),
 		stmts: map[string]*Prepared{}, portals: map[string]*portal{}}
 	s.conns[id] = se
 	s.mu.Unlock()
@@ -149,6 +149,7 @@ type session struct {
 	stmts   map[string]*Prepared
 	portals map[string]*portal
 	killed  bool
+	tm      *pgtype.Map // per session: pgtype.Map caches plans in unguarded maps
 }
 
 func (se *session) kill() {
@@ -648,7 +649,7 @@ func (se *session) encode(oid uint32, format int16, v Value) ([]byte, error) {
 	if oid == OIDVoid {
 		return []byte{}, nil
 	}
-	b, err := se.srv.tm.Encode(oid, format, arg, nil)
+	b, err := se.tm.Encode(oid, format, arg, nil)
 	if err != nil {
 		return nil, pgErr("XX000", "encode oid %d: %v", oid, err)
 	}
@@ -663,7 +664,7 @@ func (se *session) decode(oid uint32, format int16, src []byte) (Value, error) {
 	if src == nil {
 		return nil, nil
 	}
-	tm := se.srv.tm
+	tm := se.tm
 	bad := func(err error) error {
 		return pgErr("22P03", "incorrect binary data format / invalid input for %s: %v", oidTypeName(oid), err)
 	}
